@@ -93,3 +93,52 @@ def Sorted : List (Bytes × α) → Prop
 end Assoc
 
 end JV
+
+namespace JV
+
+/-! ### deep representation invariant of `jsoncons::json`: every object sorted by key, keys unique -/
+mutual
+  def JVal.WF : JVal → Prop
+    | .arr xs => WFList xs
+    | .obj ms => Assoc.Sorted ms ∧ WFMembers ms
+    | _ => True
+  def WFList : List JVal → Prop
+    | [] => True
+    | x :: xs => JVal.WF x ∧ WFList xs
+  def WFMembers : List (Bytes × JVal) → Prop
+    | [] => True
+    | (_, x) :: ms => JVal.WF x ∧ WFMembers ms
+end
+
+/-! no object member anywhere in the value is `null` (the precondition of the RFC 7386 diff law) -/
+mutual
+  def JVal.NoNullMembers : JVal → Prop
+    | .arr xs => NoNullList xs
+    | .obj ms => NoNullMems ms
+    | _ => True
+  def NoNullList : List JVal → Prop
+    | [] => True
+    | x :: xs => JVal.NoNullMembers x ∧ NoNullList xs
+  def NoNullMems : List (Bytes × JVal) → Prop
+    | [] => True
+    | (_, x) :: ms => x.isNull = false ∧ JVal.NoNullMembers x ∧ NoNullMems ms
+end
+
+end JV
+
+namespace JV
+
+mutual
+  def JVal.size : JVal → Nat
+    | .arr xs => 1 + sizeList xs
+    | .obj ms => 1 + sizeMembers ms
+    | _ => 1
+  def sizeList : List JVal → Nat
+    | [] => 0
+    | x :: xs => JVal.size x + sizeList xs
+  def sizeMembers : List (Bytes × JVal) → Nat
+    | [] => 0
+    | (_, x) :: ms => JVal.size x + sizeMembers ms
+end
+
+end JV
